@@ -5,7 +5,7 @@
  * the failing draw, the call stack of the failing draw, and whether a secret it holds (master
  * secret, key block, TLS 1.3 IVs, long-term private keys) appeared on its fd 1/2.
  *
- *   hs <tlcp|tls12|tls13> <seed> <client-failat> <server-failat> [auth] [shut] [k=<n>:<errno>] [app=<n>]
+ *   hs <tlcp|tls12|tls13> <seed> <client-failat> <server-failat> [auth] [shut] [k=<n>:<errno>] [app=<n>] [tamper=<badheader|alert|badpms>] [pay=<bytes>]
  *        auth: the server requests a client certificate;  k=n:E: instead of one plain failure, n attempts at that draw fail with errno E
  *        (destination poisoned) and then the source serves the healthy bytes;  app=n: after the handshake the client sends n records,
  *        the IV draw of record n/2 fails once: all explicit IVs on the wire must be pairwise distinct and none poison
@@ -107,6 +107,24 @@ static void scan_secret(report_t *r, const uint8_t *cap, size_t n, const uint8_t
 	}
 }
 
+#define PAYMAX 16384
+static int tamper; static size_t pay_len = 48; static uint8_t ping[PAYMAX], pong[PAYMAX], pms_pattern[46];
+static void pay_bytes(uint8_t *p, size_t n, uint64_t seed, int tag) {
+	uint64_t z = seed * 0x9E3779B97F4A7C15ULL + (uint64_t)tag * 0x1234567; size_t i;
+	for (i = 0; i < n; i++) { z += 0x9E3779B97F4A7C15ULL; { uint64_t x = z; x = (x ^ (x >> 30)) * 0xBF58476D1CE4E5B9ULL; x = (x ^ (x >> 27)) * 0x94D049BB133111EBULL; p[i] = (uint8_t)((x ^ (x >> 31)) >> 16); } }
+}
+static int recv_all(TLS_CONNECT *conn, uint8_t *out, size_t want) {
+	size_t got = 0, n = 0;
+	while (got < want) { if (tls_recv(conn, out + got, want - got, &n) != 1 || n == 0) return -1; got += n; }
+	return 1;
+}
+/* the client's PreMasterSecret can be given a wrong version (tamper = 3) and always carries a seed-derived pattern both roles know */
+int __real_tls_pre_master_secret_generate(uint8_t pms[48], int protocol);
+int __wrap_tls_pre_master_secret_generate(uint8_t pms[48], int protocol) {
+	int r = __real_tls_pre_master_secret_generate(pms, protocol);
+	if (r == 1 && tamper == 3) { pms[0] = 0x03; pms[1] = 0x03; memcpy(pms + 2, pms_pattern, 46); }
+	return r;
+}
 static int with_shutdown; static int client_auth; static int fault_k; static int fault_errno; static int app_msgs;   /* options of the current op line */
 static void role(int proto, int is_client, int sock, uint64_t seed, long failat, const pki_t *pki, report_t *r) {
 	TLS_CTX ctx; TLS_CONNECT *conn = malloc(sizeof *conn); uint8_t buf[64]; size_t n = 0, capn, i, nn = 0; uint8_t *cap, *norm; uint8_t pb[32];
@@ -152,19 +170,30 @@ static void role(int proto, int is_client, int sock, uint64_t seed, long failat,
 			while (tls_recv(conn, buf, sizeof buf, &n) == 1) {}
 		}
 	} else if (r->rc == 1) {
-		/* application data both ways, then close_notify both ways; apperr counts the calls that reported failure */
-		int a, b;
-		if (is_client) {
-			a = tls_send(conn, (const uint8_t *)"ping-from-client", 16, &n); if (a != 1) r->apperr++;
-			b = a == 1 ? tls_recv(conn, buf, sizeof buf, &n) : -1; if (b != 1) r->apperr++;
-			r->app = a == 1 && b == 1 && n == 16 && !memcmp(buf, "pong-from-server", 16);
+		/* application data both ways (payloads derived from the seed: they are secrets for the capture), then either close_notify both ways
+		 * or a REJECTED input on the live connection: 5 bytes of a bad record header / a fatal alert from the client */
+		int a, b; uint8_t *big = malloc(PAYMAX + 64);
+		pay_bytes(ping, pay_len, seed >> 1, 1); pay_bytes(pong, pay_len, seed >> 1, 2);
+		if (tamper == 4) {
+			/* the rejected header arrives right after a record was RECEIVED (the record buffer still holds it / its plaintext) */
+			static const uint8_t bad[5] = { 0x17, 0x09, 0x09, 0x40, 0x01 };
+			if (is_client) { a = tls_send(conn, ping, pay_len, &n); if (a != 1) r->apperr++; if (write(sock, bad, 5) != 5) {} r->app = a == 1; }
+			else { a = recv_all(conn, big, pay_len); r->app = a == 1 && !memcmp(big, ping, pay_len); if (tls_recv(conn, big, PAYMAX, &n) != 1) r->apperr++; }
+		} else if (is_client) {
+			a = tls_send(conn, ping, pay_len, &n); if (a != 1) r->apperr++;
+			b = a == 1 ? recv_all(conn, big, pay_len) : -1; if (b != 1) r->apperr++;
+			r->app = a == 1 && b == 1 && !memcmp(big, pong, pay_len);
+			if (r->app && tamper == 1) { static const uint8_t bad[5] = { 0x17, 0x09, 0x09, 0x40, 0x01 }; if (write(sock, bad, 5) != 5) {} }
+			if (r->app && tamper == 2) tls_send_alert(conn, TLS_alert_bad_record_mac);
 		} else {
-			a = tls_recv(conn, buf, sizeof buf, &n); if (a != 1) r->apperr++;
-			r->app = a == 1 && n == 16 && !memcmp(buf, "ping-from-client", 16);
-			b = r->app ? tls_send(conn, (const uint8_t *)"pong-from-server", 16, &n) : -1; if (b != 1) { r->apperr++; r->app = 0; }
+			a = recv_all(conn, big, pay_len); if (a != 1) r->apperr++;
+			r->app = a == 1 && !memcmp(big, ping, pay_len);
+			b = r->app ? tls_send(conn, pong, pay_len, &n) : -1; if (b != 1) { r->apperr++; r->app = 0; }
+			if (r->app && (tamper == 1 || tamper == 2)) { if (tls_recv(conn, big, PAYMAX, &n) != 1) r->apperr++; }   /* the rejected input */
 		}
-		if (r->app && with_shutdown) { r->shut = tls_shutdown(conn); if (r->shut != 1) r->apperr++; }
+		if (r->app && with_shutdown && !tamper) { r->shut = tls_shutdown(conn); if (r->shut != 1) r->apperr++; }
 		r->draws = ent.draws;
+		free(big);
 	}
 	shutdown(sock, SHUT_RDWR);
 	r->sent = sent_total; r->after = sent_after; r->attempts = entfault.failed_attempts; sm3_finish(&sent_dg, r->sentdg);
@@ -173,6 +202,8 @@ static void role(int proto, int is_client, int sock, uint64_t seed, long failat,
 	cap = cap_end(&capn); r->cap = capn;
 	norm = malloc(capn + 1);
 	for (i = 0; i < capn; i++) { uint8_t ch = cap[i]; if (ch == ' ' || ch == ':' || ch == '\n' || ch == '\r' || ch == '\t' || ch == ',') continue; if (ch >= 'A' && ch <= 'F') ch = (uint8_t)(ch - 'A' + 'a'); norm[nn++] = ch; }
+	if (r->rc == 1) { scan_secret(r, cap, capn, norm, nn, "app-plaintext-ping", ping, pay_len < 256 ? pay_len : 256); scan_secret(r, cap, capn, norm, nn, "app-plaintext-pong", pong, pay_len < 256 ? pay_len : 256); }
+	if (tamper == 3) scan_secret(r, cap, capn, norm, nn, "pre_master_secret", pms_pattern, 46);
 	if (proto != TLS_protocol_tls13) {
 		scan_secret(r, cap, capn, norm, nn, "master_secret", conn->master_secret, 48);
 		scan_secret(r, cap, capn, norm, nn, "key_block", conn->key_block, 96);
@@ -199,17 +230,20 @@ static void print_report(const char *who, const report_t *r) {
 
 static void handle(size_t nw, char **w) {
 	int proto, sv[2], pfd[2]; uint64_t seed; long cf, sf; report_t rc_, rs_; opctx_t *c; pki_t *pki; ssize_t got;
-	if (nw < 5 || nw > 9 || strcmp(w[0], "hs")) { printf("ERR usage"); return; }
-	client_auth = 0; fault_k = 0; fault_errno = -1; app_msgs = 0; with_shutdown = 0;
+	if (nw < 5 || nw > 11 || strcmp(w[0], "hs")) { printf("ERR usage"); return; }
+	client_auth = 0; fault_k = 0; fault_errno = -1; app_msgs = 0; with_shutdown = 0; tamper = 0; pay_len = 48;
 	{ size_t a; for (a = 5; a < nw; a++) {
 		if (!strcmp(w[a], "auth")) client_auth = 1;
 		else if (!strcmp(w[a], "shut")) with_shutdown = 1;
+		else if (!strncmp(w[a], "tamper=", 7)) tamper = !strcmp(w[a] + 7, "badheader") ? 1 : !strcmp(w[a] + 7, "alert") ? 2 : !strcmp(w[a] + 7, "badpms") ? 3 : !strcmp(w[a] + 7, "badheader2") ? 4 : 0;
+		else if (!strncmp(w[a], "pay=", 4)) { pay_len = (size_t)atol(w[a] + 4); if (pay_len < 1 || pay_len > PAYMAX) pay_len = 48; }
 		else if (!strncmp(w[a], "k=", 2)) { char *c = strchr(w[a], ':'); fault_k = atoi(w[a] + 2); fault_errno = c ? errno_of_name(c + 1) : -1; }
 		else if (!strncmp(w[a], "app=", 4)) app_msgs = atoi(w[a] + 4);
 		else { printf("ERR option %s", w[a]); return; } } }
 	proto = !strcmp(w[1], "tlcp") ? TLS_protocol_tlcp : (!strcmp(w[1], "tls12") ? TLS_protocol_tls12 : (!strcmp(w[1], "tls13") ? TLS_protocol_tls13 : 0));
 	if (!proto) { printf("ERR proto"); return; }
 	seed = strtoull(w[2], NULL, 10); cf = atol(w[3]); sf = atol(w[4]);
+	pay_bytes(pms_pattern, 46, seed >> 1, 3);
 	c = malloc(sizeof *c); pki = malloc(sizeof *pki);
 	memset(c, 0, sizeof *c); c->sm = (seed >> 8) * 0x9E3779B97F4A7C15ULL + 99;
 	ent_seed((seed >> 8) ^ 0xabcdefULL, -1);
